@@ -4,6 +4,7 @@ import (
 	"regexp"
 	"regexp/syntax"
 	"unicode"
+	"unicode/utf8"
 )
 
 func compile(s string) (Pattern, error) {
@@ -22,8 +23,17 @@ func compileOptimized(s string, re *syntax.Regexp) Pattern {
 		return re.Op == syntax.OpStar && re.Sub[0].Op == syntax.OpAnyCharNotNL
 	}
 	// "literal"
+	// (case-sensitive, and every rune survives string(rune) -> utf8.DecodeRune unchanged)
 	isLit := func(re *syntax.Regexp) bool {
-		return re.Op == syntax.OpLiteral
+		if re.Op != syntax.OpLiteral || re.Flags&syntax.FoldCase != 0 {
+			return false
+		}
+		for _, r := range re.Rune {
+			if r == utf8.RuneError || !utf8.ValidRune(r) {
+				return false
+			}
+		}
+		return true
 	}
 	// ^
 	isBegin := func(re *syntax.Regexp) bool {
@@ -38,7 +48,7 @@ func compileOptimized(s string, re *syntax.Regexp) Pattern {
 	// more often and optimize those as well.
 
 	// lit => strings.Contains($input, lit)
-	if re.Op == syntax.OpLiteral {
+	if isLit(re) {
 		return &containsLiteralMatcher{value: newInputValue(string(re.Rune))}
 	}
 
